@@ -20,15 +20,15 @@ CHECKS = {
 }
 CHECKS.update({
  "C08": dict(engine="E-PTS + E-TABLE + E-ALLOC(R4)", cat="other", ref="DESIGN.md 4/C08",
-   text="Three necessary structural clauses of the set behaviour: operands of the set algebra and of every reader are deep-immutable (no store reaches memory rooted at a const bitmap, including through the captured iterator); every switch on the container type names all three enumerators; no mutator frees the live container without having read it or being dominated by an emptiness test; mutator if-chains over the container type name every enumerator. Set semantics under histories, change reports and iterator order are NOT decided.",
+   text="Three necessary structural clauses of the set behaviour: operands of the set algebra and of every reader are deep-immutable (no store reaches memory rooted at a const bitmap, including through the captured iterator); every switch on the container type names all three enumerators; no mutator frees the live container without having read it or being dominated by an emptiness test; mutator if-chains over the container type name every enumerator; varintBitmapAdd / Remove change the cardinality by one only on an edge controlled by a membership result for the element (B4). Set semantics under histories, change reports and iterator order are NOT decided.",
    note=TB + "Set equality with a mathematical model is a behavioural property over histories and is out of reach of a sound static argument here; only the named clauses are claimed.",
    tech="static analysis: points-to Mod sets, switch-table exhaustiveness, free-without-read dataflow on LLVM IR"),
  "C15": dict(engine="E-PTS + E-UNINIT", cat="other", ref="DESIGN.md 4/C15, 3/E-UNINIT",
-   text="S1: no mutable static storage and no stateful libc callee anywhere in the linked library. S2: interprocedural definite-initialisation dataflow at byte granularity over every stack and fixed-size heap object: each load, callee read-before-write, struct copy-out and constructor return is an obligation that the bytes were written on every path. S3: heap arrays written by position are written on every iteration before being read whole. S4: a cursor step over a zero-filled output region equals the filled size (4 BP128 sites). Other array cells (variable index) are not decided.",
+   text="S1: no mutable static storage and no stateful libc callee anywhere in the linked library. S2: interprocedural definite-initialisation dataflow at byte granularity over every stack and fixed-size heap object: each load, callee read-before-write, struct copy-out and constructor return is an obligation that the bytes were written on every path. S3: heap arrays written by position are written on every iteration before being read whole. S4: a cursor step over a zero-filled output region equals the filled size (4 BP128 sites). S5: the bitmap's 8 KiB bit array, when obtained with malloc, is overwritten in full before any return once it has been stored into the object. Other array cells (variable index) are not decided.",
    note=TB + "Callee summaries (upward-exposed reads, must-writes per return class) are specialised on constant integer arguments; exhaustive enum switches are assumed exhaustive only for objects received through parameters.",
    tech="static analysis: must-initialised dataflow with callee summaries + Mod-set analysis on LLVM IR"),
  "C16": dict(engine="E-META (on E-UNINIT)", cat="other", ref="DESIGN.md 4/C16, 3/E-META",
-   text="For every function that writes a metadata struct (24 writer parameters today): every scalar field is definitely written on every success return (must-write per return class); the value stored to encodedSize/encodedBytes is, as a linear form over SSA values, the value the encoder returns; the count field receives the count argument; no field of a kind the property names is stored a literal constant on a success path for non-empty input; (M6) sizes reported by varintRLEAnalyze / varintPFORSize are built from the same length terms as the encoder's cursor advances; (M8) the block count reported by the four BP128 encoders equals ceil(values packed / 128) for every residue of count. Numeric truth of min/max/run counts is NOT decided; header-reader/writer layout agreement (M4) is not built.",
+   text="For every function that writes a metadata struct (24 writer parameters today): every scalar field is definitely written on every success return (must-write per return class); the value stored to encodedSize/encodedBytes is, as a linear form over SSA values, the value the encoder returns; the count field receives the count argument; no field of a kind the property names is stored a literal constant on a success path for non-empty input; (M6) sizes reported by varintRLEAnalyze / varintPFORSize are built from the same length terms as the encoder's cursor advances; (M9) only the three confirmed in/out metadata parameters are read before being written; (M10) a stored minimum / maximum accumulated over the input comes from a loop whose only exit is its counter test; (M8) the block count reported by the four BP128 encoders equals ceil(values packed / 128) for every residue of count. Numeric truth of min/max/run counts is NOT decided; header-reader/writer layout agreement (M4) is not built.",
    note=TB + "In/out metadata parameters (FOR encoders) are exempt from M1 and covered by C15; 3 known findings (AdaptiveDecode encodedSize, AdaptiveReadMeta placeholders).",
    tech="static analysis: out-parameter must-write dataflow + SSA linear-form equality on LLVM IR"),
  "C13": dict(engine="E-BOUNDS", cat="other", ref="DESIGN.md 4/C13, 3/E-BOUNDS",
@@ -40,7 +40,7 @@ CHECKS.update({
    note=TB + "Values decoded from input bytes are unconstrained; arithmetic is over mathematical integers (wrap of input-derived products is not modelled - see level text); 3 known findings (both Elias array decoders, varintRLEGetRunCount).",
    tech="static analysis: symbolic region-bounds analysis of reads + length-parameter use-def reachability on LLVM IR"),
  "C12": dict(engine="dataflow rules on SSA", cat="other", ref="DESIGN.md 4/C12",
-   text="Every function performing the checked signed add (varintTaggedAdd, varintExternalAdd_) is matched against the decode / checked-add / measure / conditional-put shape: measured value == stored value == the intrinsic's sum (SSA identity), the put is dominated by the no-overflow edge and by the strict newWidth > oldWidth test (growth only behind force), the overflow edge returns 0 and reaches no write through the varint pointer. The byte extent of the put itself (exactly width(value) bytes) is C01's clause, referenced not re-proved.",
+   text="Every function performing the checked signed add (varintTaggedAdd, varintExternalAdd_) is matched against the decode / checked-add / measure / conditional-put shape: measured value == stored value == the intrinsic's sum (SSA identity), the put is dominated by the no-overflow edge and by the strict newWidth > oldWidth test (growth only behind force), the checked add is the signed 64-bit intrinsic and the failure branch depends on its overflow flag alone, the overflow edge returns 0 and reaches no write through the varint pointer. The byte extent of the put itself (exactly width(value) bytes) is C01's clause, referenced not re-proved.",
    note=TB + "Pattern-specific: a differently shaped implementation is reported as analysis-broken (exit 2), not as a pass.",
    tech="static analysis: SSA value-identity and dominance rules on LLVM IR"),
  "C01": dict(engine="E1 + W + E-ACC", cat="other", ref="DESIGN.md 4/C01, 3/E1",
@@ -56,7 +56,7 @@ CHECKS.update({
    note=TB + E1NOTE,
    tech="static analysis: abstract interpretation producing a closed-form class table + ordering lemma checked on the table"),
  "C09": dict(engine="E2", cat="other", ref="DESIGN.md 4/C09, 3/E2",
-   text="Set/Get/SetHalf/SetIncr of every packed-array instantiation (quick: the 11 occurring in the tree plus the library's own; thorough: all 106 eligible width 1-32 x slot 8/16/32/64 x default/compact combinations, 15k cases) are interpreted abstractly with the element position partitioned by residue modulo SLOT/gcd(BITS,SLOT): the written slots equal the old slots with exactly the element's bits replaced by the value's bits, Get returns exactly those bits, the second slot is touched only when the element straddles, no other location is accessed. Sorted insert/delete/member/search semantics over histories and SetIncr arithmetic are NOT decided.",
+   text="Set/Get/SetHalf/SetIncr of every packed-array instantiation (quick: the 11 occurring in the tree, one more of each other slot type, plus the library's own; thorough: all 106 eligible width 1-32 x slot 8/16/32/64 x default/compact combinations, 15k cases) are interpreted abstractly with the element position partitioned by residue modulo SLOT/gcd(BITS,SLOT): the written slots equal the old slots with exactly the element's bits replaced by the value's bits, Get returns exactly those bits, the second slot is touched only when the element straddles, no other location is accessed; the bit position offset*BITS is not formed in arithmetic narrower than 64 bits that the index range could overflow (P4). Sorted insert/delete/member/search semantics over histories and SetIncr arithmetic are NOT decided.",
    note=TB + "Preconditions from the property: val < 2^BITS (an assert in the source), SetIncr result in range. Instantiations are generated witnesses that #include /repo/src/varintPacked.h.",
    tech="static analysis: bit-level abstract interpretation with congruence partitioning on LLVM IR"),
  "C10": dict(engine="W + E2 + structural rules", cat="other", ref="DESIGN.md 4/C10",
@@ -77,7 +77,7 @@ CHECKS.update({
    tech="static analysis: decision-table extraction and interval evaluation on LLVM IR"),
 })
 CHECKS["C03"] = dict(engine="E-SIZE + sibling size terms", cat="other", ref="DESIGN.md 4/C03, 3/E-SIZE, 10.7",
-   text="Z1/Z3: for the size predictors and their encoders (FORSize/FOREncode+BatchEncode, PFORSize/PFOREncode, DictEncodedSizeWithDict/DictEncodeWithDict, GroupSize/GroupEncode, RLEAnalyze/RLEEncode) every call whose result advances the encoder's cursor is matched by a predictor term with the same extracted length table on the same quantity (or a constant maximum), and the total sizes, as polynomials over named lengths, counts and widths with loop trip counts, are equal (>= for the documented worst-case PFOR predictor). Z2: for 8 encoders - delta (signed, unsigned), the four 128-block packers, the two Elias array encoders, and the float encoder in its INDEPENDENT exponent mode - every write offset+size through the destination and the returned length are bounded symbolically (init + iterations x advance; block loops split into full blocks and one partial block; counters kept in a writer object summed over callees) and compared with the exact sizing function for every residue of count modulo the block size / 8. NOT decided: writes of the FOR/PFOR/Dict/Group encoders against their predictors (only totals and terms), the maximum-size bounds of RLE (amortised), adaptive (depends on value-level selection) and float in the COMMON/DELTA exponent modes; see evidence not_decided.",
+   text="Z1/Z3: for the size predictors and their encoders (FORSize/FOREncode+BatchEncode, PFORSize/PFOREncode, DictEncodedSizeWithDict/DictEncodeWithDict, GroupSize/GroupEncode, RLEAnalyze/RLEEncode) every call whose result advances the encoder's cursor is matched by a predictor term with the same extracted length table on the same quantity (or a constant maximum), and the total sizes, as polynomials over named lengths, counts and widths with loop trip counts, are equal (>= for the documented worst-case PFOR predictor). Z5: with the width field pinned to each of 1..8, every write offset+extent of the FOR, FORBatch, PFOR and Dict encoders is at most the predicted total. Z2: for 8 encoders - delta (signed, unsigned), the four 128-block packers, the two Elias array encoders, and the float encoder in its INDEPENDENT exponent mode - every write offset+size through the destination and the returned length are bounded symbolically (init + iterations x advance; block loops split into full blocks and one partial block; counters kept in a writer object summed over callees) and compared with the exact sizing function for every residue of count modulo the block size / 8. NOT decided: the maximum-size bounds of RLE (amortised), adaptive (depends on value-level selection) and float in the COMMON/DELTA exponent modes; see evidence not_decided.",
    note=TB + "Sizes and counts are non-negative and unsigned arithmetic on them does not wrap; metadata fields named alike in predictor and encoder denote the same quantity; bytes written through the Elias bit writer lie below the byte count the writer reports. 3 fixed findings (varintPFORSize index term, varintBP128MaxBytes prefix, varintAdaptiveMaxSize).",
    tech="static analysis: sibling agreement of extracted length tables / value roles, and symbolic upper bounds of output cursors (quasi-polynomials with loop trip counts, compared by residue enumeration) on LLVM IR")
 NA = {
